@@ -48,7 +48,7 @@ def run(tier, seed, opens):
     class Down(Exception):
         pass
 
-    orig = {m: getattr(bt.BitcoinLibTestClient, m, None) for m in ('gettransactions', 'gettransaction', 'blockcount', 'getrawtransaction', 'getutxos')}
+    orig = {m: getattr(bt.BitcoinLibTestClient, m, None) for m in ('gettransactions', 'gettransaction', 'blockcount', 'getrawtransaction', 'getutxos', 'estimatefee')}
 
     def p_gettransactions(self, addr, after_txid='', limit=20):
         state['calls'] += 1
@@ -71,6 +71,12 @@ def run(tier, seed, opens):
 
     def p_blockcount(self):
         return state['height']
+
+    def p_estimatefee(self, blocks):
+        state['calls'] += 1
+        if state['down']:
+            raise Down('provider down')
+        return 100000 // blocks
 
     def p_getutxos(self, addr, after_txid='', limit=20):
         state['calls'] += 1
@@ -98,6 +104,7 @@ def run(tier, seed, opens):
     bt.BitcoinLibTestClient.gettransaction = p_gettransaction
     bt.BitcoinLibTestClient.blockcount = p_blockcount
     bt.BitcoinLibTestClient.getutxos = p_getutxos
+    bt.BitcoinLibTestClient.estimatefee = p_estimatefee
     try:
         maxn = 4 if tier == 'quick' else 5
         cfg = 0
@@ -208,6 +215,41 @@ def run(tier, seed, opens):
                             ok += 1
                     except Exception as e:
                         fail('getutxos with a partially filled cache', scen, 'raised %s: %s' % (type(e).__name__, str(e)[:150]), 'all unspent outputs')
+        # fee estimates: one confirmation target per cache group (high / medium / low); what the cache serves for a target afterwards must be what
+        # the provider answered for that target (or the query fails) - never the stored answer of another target
+        for targets in ((1, 2, 10), (1, 4, 25), (2, 1, 6), (5, 1, 100)):
+            cfg += 1
+            db = 'sqlite:///' + os.path.join(tmp, 'f%d.sqlite' % cfg)
+            state['down'] = False
+            cold = {}
+            cases += 1
+            try:
+                for b in targets:
+                    cold[b] = Service(network=net, cache_uri=db).estimatefee(b)
+                if any(cold[b] != 100000 // b for b in targets):
+                    fail('estimatefee cold', {'targets': list(targets)}, repr(cold), repr({b: 100000 // b for b in targets}))
+                else:
+                    ok += 1
+            except Exception as e:
+                fail('estimatefee cold', {'targets': list(targets)}, 'raised %s: %s' % (type(e).__name__, str(e)[:120]), 'the provider answers')
+                continue
+            state['down'] = True
+            for b in targets:
+                cases += 1
+                try:
+                    got = Service(network=net, cache_uri=db).estimatefee(b)
+                    if got != cold[b]:
+                        fail('estimatefee warm', {'targets': list(targets), 'blocks': b}, repr(got), repr(cold[b]))
+                    else:
+                        ok += 1
+                except ServiceError:
+                    ok += 1
+                except Exception as e:
+                    if 'provider down' in str(e) or type(e).__name__ == 'Down':
+                        ok += 1
+                    else:
+                        fail('estimatefee warm', {'targets': list(targets), 'blocks': b}, 'raised %s: %s' % (type(e).__name__, str(e)[:120]), 'stored answer or ServiceError')
+            state['down'] = False
     finally:
         for m, f in orig.items():
             if f is None:
